@@ -3929,6 +3929,12 @@ impl Zeroconf {
             false
         };
 
+        // The announcement attempt may have started probes (e.g. on a registry that was
+        // re-created when the interface came back): they need their wake-up timers.
+        for timer in dns_registry.new_timers.drain(..) {
+            self.timers.push(Reverse(timer));
+        }
+
         if announced_v4 || announced_v6 {
             let hostname = dns_registry.resolve_name(info.get_hostname());
             let service_name = dns_registry.resolve_name(&fullname).to_string();
